@@ -139,7 +139,7 @@ func ruleL7sel(r *Report, sel func(field string) bool, withRead bool) {
 			continue
 		}
 		// readers
-		var bad *site
+		via := map[string]*site{}
 		nread := 0
 		mis := map[string]bool{}
 		someWriter := heldSet{}
@@ -178,16 +178,29 @@ func ruleL7sel(r *Report, sel func(field string) bool, withRead bool) {
 					continue
 				}
 			}
-			if !ok && bad == nil {
-				bad = rd
+			if !ok {
+				// one key per entry point from which the unordered read is reached: a known finding
+				// lists the entry points that race on the pinned tree, a reader that loses its lock
+				// later shows up under the entry points it adds
+				for _, rt := range L.RootsOf(rd.s.Ctx) {
+					if via[rt] == nil {
+						via[rt] = rd
+					}
+				}
+				if len(L.RootsOf(rd.s.Ctx)) == 0 && via["?"] == nil {
+					via["?"] = rd
+				}
 			}
 		}
 		if l7HoldingOnly {
 			continue
 		}
-		if bad != nil {
-			o := hr.Bad(n, r.P.InstrPos(bad.ins), fmt.Sprintf("read in %s without any of the locks {%s} under which the header is replaced: a reader of one block races with a writer of another block that grows or appends", bad.fn, common.key()))
-			setWitness(o, bad.s)
+		if len(via) > 0 {
+			for _, rt := range sortedKeys(via) {
+				rd := via[rt]
+				o := hr.Bad(n+"/via "+rt, r.P.InstrPos(rd.ins), fmt.Sprintf("read in %s, reached from %s, without any of the locks {%s} under which the header is replaced: a reader of one block races with a writer of another block that grows or appends", rd.fn, rt, common.key()))
+				setWitness(o, rd.s)
+			}
 		} else {
 			hr.OK(n, "-", fmt.Sprintf("%d reading contexts hold a writer's lock", nread))
 		}
